@@ -211,6 +211,7 @@ func Check(c *core.Ctx, pool *gjs.Pool, cfg Config) {
 		progs = append(progs, SwitchFamily()...)
 		progs = append(progs, LoopFamily()...)
 		progs = append(progs, CondFamily()...)
+		progs = append(progs, OrderFamily()...)
 	}
 	for i := 0; i < cfg.Random; i++ {
 		progs = append(progs, Random(rng))
